@@ -9,6 +9,8 @@
 (*   ArityCovered:  max index read < length of the vector passed.          *)
 (*  "kernel" lines: every discovered dispatcher compared with its          *)
 (*   interpreted function on arguments of its own signature.               *)
+(*  "closure" lines: a part of a registry element that is a Python         *)
+(*   function calling compiled kernels, with compilation on and off.       *)
 (*  "run" lines: a full run with compilation on against one with           *)
 (*   compilation off.                                                      *)
 (***************************************************************************)
@@ -25,6 +27,13 @@ Judge(L) ==
   ELSE IF L.what = "kernel" THEN
      IF L.interp_raised THEN "interpreted_kernel_raises"
      ELSE IF L.dev_milli > 1000 THEN "compiled_value_differs_from_interpreted" ELSE "ok"
+  ELSE IF L.what = "closure" THEN
+     \* a part of a registry element that is a Python function CALLING compiled kernels (the asymptotic towers, the massive
+     \* wrappers): evaluated with compilation on and with compilation off on the z lattice
+     IF <<L.kind, L.pc, L.cls, L.order>> \notin Elements THEN "not_a_registry_element"
+     ELSE IF L.outcome # "OK" THEN "part_behaves_differently_with_compilation_" \o L.outcome
+     ELSE IF L.dev_milli > 1000 THEN "compiled_value_differs_from_interpreted"
+     ELSE "ok"
   ELSE IF L.what = "run" THEN
      IF L.outcome # "OK" THEN "outcome_" \o L.outcome
      ELSE IF L.dev_milli > 1000 THEN "run_with_compilation_differs_from_run_without" ELSE "ok"
